@@ -43,6 +43,7 @@ type saoWorld struct {
 	longRun   bool
 	exportEvery int
 	grants      map[string]*owner // data id -> read-write grantee
+	revoked     []revokedGrant    // grants the owner has withdrawn: the former grantee keeps trying
 	reported     []*saotypes.Fault // faults a fishman's report put on record
 	scarce       bool             // only two providers accept orders: selections run out of candidates
 	silent       *Account         // a provider that never completes anything (scarce worlds)
@@ -58,6 +59,23 @@ func (w *saoWorld) newDataId() string {
 func (w *saoWorld) newCommit() string {
 	w.nCommit++
 	return fmt.Sprintf("%08x-comm-4000-8000-%012x", w.rng.Uint32(), w.nCommit)
+}
+
+type revokedGrant struct {
+	dataId string
+	who    *owner
+}
+
+// formerGrantee: the DID whose read-write access to dataId was withdrawn (nil if none)
+func (w *saoWorld) formerGrantee(dataId string) *owner {
+	for _, g := range w.revoked {
+		if g.dataId == dataId && g.who != nil {
+			if _, again := w.grants[dataId]; !again {
+				return g.who
+			}
+		}
+	}
+	return nil
 }
 
 func (w *saoWorld) mkKeyOwner(a *Account, name string) *owner {
@@ -341,6 +359,8 @@ func (w *saoWorld) update(mut string) {
 	if g, ok := w.grants[dataId]; ok && mut == "" && rng.Intn(2) == 0 {
 		signerOwner = g // a read-write grantee may update the content
 		byGrantee = true
+	} else if g := w.formerGrantee(dataId); g != nil && mut == "" && rng.Intn(2) == 0 {
+		signerOwner = g // access withdrawn: must be refused
 	}
 	switch mut {
 	case "stale-base":
@@ -443,6 +463,8 @@ func (w *saoWorld) terminate(mut string) {
 	}
 	if g, ok := w.grants[dataId]; ok && (mut == "grantee" || (mut == "" && rng.Intn(4) == 0)) {
 		o = g
+	} else if g := w.formerGrantee(dataId); g != nil && mut == "" && rng.Intn(3) == 0 {
+		o = g // access withdrawn: must be refused
 	}
 	if mut == "readonly" {
 		o = w.sponsor
@@ -489,6 +511,15 @@ func (w *saoWorld) permission(mut string) {
 	if mut == "bad-did" {
 		p.ReadwriteDids = []string{"did:key:unknown"}
 	}
+	revoke := false
+	if _, granted := w.grants[dataId]; granted && mut == "" && rng.Intn(2) == 0 {
+		// revoke: empty lists (sometimes only one of them)
+		revoke = true
+		p.ReadwriteDids = nil
+		if rng.Intn(2) == 0 {
+			p.ReadonlyDids = nil
+		}
+	}
 	jws := SignJWS(&p, o.key, o.kid)
 	if mut == "forged-owner" {
 		// the proposal names the real owner; header and signature are the sponsor's (an unrelated did:key), who grants himself access
@@ -497,7 +528,12 @@ func (w *saoWorld) permission(mut string) {
 	}
 	res := w.r.UpdatePermission(gw, &saotypes.MsgUpdataPermission{Creator: gw.Bech(), Proposal: p, JwsSignature: jws, Provider: gw.Bech()})
 	if res.Class == "ok" {
-		w.grants[dataId] = grantee
+		if revoke {
+			w.revoked = append(w.revoked, revokedGrant{dataId, w.grants[dataId]})
+			delete(w.grants, dataId)
+		} else {
+			w.grants[dataId] = grantee
+		}
 	}
 }
 
@@ -516,6 +552,9 @@ func (w *saoWorld) cancel(mut string) {
 	provider := o.Provider
 	if signer == nil {
 		return
+	}
+	if signer.Bech() != provider && rng.Intn(3) != 0 {
+		provider = signer.Bech() // a creator that is not the gateway acts for itself
 	}
 	switch mut {
 	case "attacker-own-node":
